@@ -471,6 +471,11 @@ impl DefragQueue {
         let frame_index = match frame.header.is_last() {
             // Operation only on the last frame
             true => {
+                // A repeated last frame must not overwrite what the first one established.
+                if self.has_frame(MAX_FRAMES - 1) {
+                    return Err(DefragmentInsertError::Duplicate(frame.header));
+                }
+
                 // If we receive the last frame, we know the final packet size.
                 let final_packet_size = frame.header.frame_offset as usize + frame.fragment.len();
                 self.final_packet_size = Some(final_packet_size);
@@ -564,6 +569,21 @@ impl DefragQueue {
                 ));
             }
 
+            // The last frame must hold between 1 and frame_window_size bytes, otherwise parts
+            // of the packet are covered by no frame.
+            let last_frame_size = final_packet_size - last_frame_offset as usize;
+            if last_frame_size == 0 || last_frame_size > frame_window_size {
+                self.idle = true;
+                return Err(DefragmentInsertError::InvalidHeaderValue(
+                    FragmentFrameHeader {
+                        stream_offset: self.stream_offset,
+                        frame_offset: last_frame_offset,
+                        flags: FragmentFlags::LAST as u16,
+                    },
+                    "last_frame_size_invalid",
+                ));
+            }
+
             // Only after we have received the last frame, and any middle frame, we know how many
             // frames to expect and the final packet size.
             let expected_frames = final_packet_size.div_ceil(frame_window_size);
@@ -595,7 +615,7 @@ impl DefragQueue {
 
         // Check if we have received all frames
         if let Some(expected_frames) = self.expected_frames
-            && self.received_frames() == expected_frames
+            && self.received_exactly(expected_frames)
         {
             self.idle = true;
             let packet_size = self.final_packet_size.unwrap_or(MAX_PACKET_SIZE);
@@ -611,6 +631,20 @@ impl DefragQueue {
 
     fn received_frames(&self) -> usize {
         self.recv_mask.iter().map(|m| m.count_ones() as usize).sum()
+    }
+
+    fn has_frame(&self, frame_index: usize) -> bool {
+        (self.recv_mask[frame_index / BITMASK_ENTRY_BITS] >> (frame_index % BITMASK_ENTRY_BITS)) & 1
+            != 0
+    }
+
+    /// True if exactly the frames of a packet split into `expected_frames` frames were
+    /// received: the middle frames `0..expected_frames - 1` and the last frame. A frame
+    /// beyond the last one never completes a packet.
+    fn received_exactly(&self, expected_frames: usize) -> bool {
+        self.received_frames() == expected_frames
+            && self.has_frame(MAX_FRAMES - 1)
+            && (0..expected_frames.saturating_sub(1)).all(|i| self.has_frame(i))
     }
 
     pub fn is_idle(&self) -> bool {
